@@ -332,7 +332,10 @@ def correspondence(ctx):
         if d[0] == "rxs":
             # oracle on the implementation alone: result independent of the cutting
             key = d[1]
-            if key in by_stream and by_stream[key][0] != i:
+            # after a failed magic check the loop stops reading: the undecoded remainder it
+            # holds at that moment is not an observable result, only what was decoded is
+            obs = (lambda r: r.split("|")[0] if r.startswith("ASSERT") else r)
+            if key in by_stream and obs(by_stream[key][0]) != obs(i):
                 ctx.violation("decoded messages depend on the read boundaries",
                               {"stream_hex": hx(key), "cut_a": by_stream[key][1], "result_a": by_stream[key][0],
                                "cut_b": list(d[2]), "result_b": i})
